@@ -540,6 +540,48 @@ static void doubling_case(Rng& r) {
   sig(mix64(0xd0b1, mix64(k, n0)));
 }
 
+// ---------------------------------------------------------------- weights near DBL_MAX
+// 1-5 items of weight 1e307..8e307: k * max weight overflows a double, the cumulative weight itself stays
+// finite (<= 1.6e308).  All the usual clauses apply (the model divides in long double).
+static void near_max_case(Rng& r) {
+  g_fam = "sketch"; g_mfam = "merge";
+  Live L;
+  L.m.k = r.chance(0.3) ? static_cast<uint32_t>(r.range(1, 7)) : static_cast<uint32_t>(r.range(8, 500));
+  L.sk.reset(new EB(L.m.k));
+  const uint64_t n = 1 + r.below(5);
+  describe("near-DBL_MAX weights k=" + std::to_string(L.m.k) + " n=" + std::to_string(n));
+  long double budget = 1.6e308L;
+  bool overflow_kw = false;
+  try {
+    observe(*L.sk, L.m, "construction", 1);
+    for (uint64_t i = 0; i < n; ++i) {
+      double w = (r.chance(0.3) ? 1.0 : 1 + 7 * r.unit()) * 1e307;
+      if (w > budget) w = static_cast<double>(budget / 2);
+      if (!(w > 1e300)) break;
+      budget -= w;
+      const uint64_t id = new_id(w);
+      if (r.coin()) L.sk->update(id, w); else { uint64_t tmp = id; L.sk->update(std::move(tmp), w); }
+      L.m.add(id, w);
+      if (static_cast<long double>(L.m.k) * L.m.wmax > 1.7976931348623157e308L) overflow_kw = true;
+      observe(*L.sk, L.m, "update with a weight near DBL_MAX", 2);
+    }
+    if (overflow_kw) count("near_max_k_times_wmax_overflows");
+    if (r.coin()) { std::unique_ptr<EB> t(new EB(round_trip(*L.sk, r))); L.sk = std::move(t); observe(*L.sk, L.m, "round trip", 2); count("near_max_round_trip"); }
+    // a few ordinary weights on top (they barely move the sums) and a merge with an ordinary small sketch, either direction
+    for (int i = 0; i < 3 && r.coin(); ++i) { const double w = 0.5 + r.unit(); const uint64_t id = new_id(w); L.sk->update(id, w); L.m.add(id, w); observe(*L.sk, L.m, "ordinary update after near-DBL_MAX weights", 1); }
+    if (r.coin()) {
+      Live B; B.m.k = pick_k(r); B.sk.reset(new EB(B.m.k));
+      const uint64_t nb = r.below(30);
+      for (uint64_t i = 0; i < nb; ++i) { const double w = 0.1 + 10 * r.unit(); const uint64_t id = new_id(w); B.sk->update(id, w); B.m.add(id, w); }
+      if (r.coin()) { L.sk->merge(*B.sk); L.m.absorb(B.m); observe(*L.sk, L.m, "merge of an ordinary sketch into the near-DBL_MAX one", 2); }
+      else { B.sk->merge(*L.sk); B.m.absorb(L.m); observe(*B.sk, B.m, "merge of the near-DBL_MAX sketch into an ordinary one", 2); }
+      count("near_max_merge");
+    }
+  } catch (const std::exception& e) { checked(); fail("sketch|near-dbl-max|throws", G().cur_desc + " what=" + e.what()); return; }
+  count("near_max_cases");
+  sig(mix64(0x9e47, mix64(L.m.k, L.m.n)));
+}
+
 // ---------------------------------------------------------------- inclusion-probability cells
 struct Cell { int n; int k; int kind; int merge; int k2; int table; };   // table: 0 = weights from the generator, else explicit list below
 static const double TABLES[4][8] = {
@@ -648,7 +690,7 @@ void run_case(uint64_t idx, Rng& r) {
   const uint64_t s = r.next();
   random_utils::rand.seed(s);
   random_utils::random_bit.seed(static_cast<uint32_t>(s));
-  if (r.chance(0.006)) doubling_case(r); else explore_case(r);
+  if (r.chance(0.006)) doubling_case(r); else if (r.chance(0.03)) near_max_case(r); else explore_case(r);
 }
 
 } // namespace vf
